@@ -258,7 +258,8 @@ fn check_program(p: &synth::Prog, tt: &BTreeMap<&'static str, Target>, all_targe
         }
     };
     let tree = RTree::convert(&su);
-    out.conform = synth::conform(p, &tree, &offs).map_err(|e| format!("{} :: {} :: {}", e, p.tag, p.toks.join(" ")));
+    // (programs given as bare token lists — src/scale.rs — carry no believed node list; the tree of the parser is their tree)
+    out.conform = if p.nodes.is_empty() && p.tag.starts_with("scale:") { Ok(0) } else { synth::conform(p, &tree, &offs).map_err(|e| format!("{} :: {} :: {}", e, p.tag, p.toks.join(" "))) };
     out.nodes = tree.nodes.len() as u64;
     for n in &tree.nodes {
         out.pairs.push((n.slot, n.kind));
@@ -527,6 +528,27 @@ pub fn run(tier: Tier) -> i32 {
             run.merge_violations(o.violations);
         }
     });
+    // wide constructs (parts / statements / arguments / parameters / elements on both sides of 64 and 256) and constructs whose
+    // shape the generator fixes to one spelling (literal spellings, try statements, non-ASCII identifiers)
+    {
+        let mut extra: Vec<synth::Prog> = Vec::new();
+        for (label, toks) in crate::scale::width_toks(tier == Tier::Thorough).into_iter().chain(crate::scale::shape_toks()) {
+            extra.push(synth::Prog { toks, nodes: Vec::new(), tag: label });
+        }
+        n += extra.len();
+        let res = util::par_map(extra.len(), |i| check_program(&extra[i], &tt, &all_targets, &sets, tier, false));
+        for o in res {
+            roots += o.roots;
+            calls += o.calls;
+            nodes += o.nodes;
+            sig_set.insert(o.walk_sig);
+            match &o.conform {
+                Ok(_) => validated += 1,
+                Err(e) => run.machinery(format!("scale program: {}", e)),
+            }
+            run.merge_violations(o.violations);
+        }
+    }
     let c = sum;
     for s in crate::rtree::ALL_SLOTS {
         if !slots.contains(s) {
